@@ -16,6 +16,8 @@ if argv and argv[0] == "--wave6":
     root, suffix, argv = "/tmp/wt6", "_f", argv[1:]
 if argv and argv[0] == "--wave7":
     root, suffix, argv = "/tmp/wt7", "_g", argv[1:]
+if argv and argv[0] == "--wave8":
+    root, suffix, argv = "/tmp/wt8", "_h", argv[1:]
 ids = argv or [f"C{i:02d}" for i in range(1, 21)]
 extra = {"C12": "C11,C12", "C02": "C02,C06", "C06": "C06,C02", "C01": "C01,C05,C15", "C05": "C05,C15", "C15": "C15", "C20": "C20,C05"}
 for pid in ids:
